@@ -168,7 +168,26 @@ static uint64_t from_le(const unsigned char *b, int n) { uint64_t v = 0; for (in
 static void die(const char *m) { fprintf(stderr, "d_uatomic: %s\n", m); exit(2); }
 
 #define GUARD 64
-static struct { unsigned char pre[GUARD]; unsigned char m[16]; unsigned char post[GUARD]; } __attribute__((aligned(64))) box;
+/* The 16-byte memory image of a vector is executed at two placements inside  [none | rw | none | rw | none]  pages:
+ *   A: the last 16 bytes of a read-write page, followed by an inaccessible page (64 value-guard bytes before it);
+ *   B: the first 16 bytes of a read-write page, preceded by an inaccessible page (64 value-guard bytes after it).
+ * An operation that reads or writes bytes outside its operand ("touches neighbouring bytes", even with unchanged values) faults on
+ * one of them when the operand is the last / first object of the image; the fault is reported as a mismatch of the vector. */
+#include <sys/mman.h>
+#include <setjmp.h>
+#include <signal.h>
+static unsigned char *imgA, *imgB;
+static sigjmp_buf vjb; static volatile sig_atomic_t varmed;
+static void on_vfault(int sig) { if (varmed) { varmed = 0; siglongjmp(vjb, sig); } signal(sig, SIG_DFL); raise(sig); }
+static void place_init(void)
+{
+	long ps = sysconf(_SC_PAGESIZE);
+	unsigned char *r = mmap(NULL, 5 * ps, PROT_NONE, MAP_PRIVATE | MAP_ANONYMOUS, -1, 0);
+	if (r == MAP_FAILED || mprotect(r + ps, ps, PROT_READ | PROT_WRITE) || mprotect(r + 3 * ps, ps, PROT_READ | PROT_WRITE)) { perror("d_uatomic: guard pages"); exit(2); }
+	imgA = r + 2 * ps - 16; imgB = r + 3 * ps;
+	struct sigaction sa; memset(&sa, 0, sizeof sa); sa.sa_handler = on_vfault; sa.sa_flags = SA_NODEFER;
+	sigaction(SIGSEGV, &sa, NULL); sigaction(SIGBUS, &sa, NULL);
+}
 
 /* ------------------------------------------------------------------ vector mode */
 static int run_vectors(const char *vpath, const char *lpath)
@@ -176,6 +195,7 @@ static int run_vectors(const char *vpath, const char *lpath)
 	FILE *vf = fopen(vpath, "r"), *lf = fopen(lpath, "w");
 	char *line = NULL; size_t cap = 0; long idx = 0, bad = 0;
 	if (!vf || !lf) die("cannot open vector or log file");
+	place_init();
 	setvbuf(lf, NULL, _IOFBF, 1 << 20);
 	while (getline(&line, &cap, vf) > 0) {
 		long v[64]; int n = 0; char *s = line, *e;
@@ -198,15 +218,23 @@ static int run_vectors(const char *vpath, const char *lpath)
 		} else
 			fn = tab1[op][ti] ? tab1[op][ti] : tab2[op][ti][oi];
 		if (!fn) die("no instantiation for vector");
-		memset(box.pre, 0xA5, GUARD); memset(box.post, 0x5A, GUARD);
-		memcpy(box.m, m0, 16);
-		struct out o = { 0, 0, 0 };
+		struct out o = { 0, 0, 0 }, o2 = { 0, 0, 0 };
+		volatile int g = 1, fault = 0; unsigned char m2[16];
+		/* placement A */
+		memset(imgA - GUARD, 0xA5, GUARD); memcpy(imgA, m0, 16);
 		__asm__ __volatile__("" ::: "memory");
-		fn(box.m + off, from_le(a, 8), from_le(b, 8), imm, &o);
+		if (!sigsetjmp(vjb, 1)) { varmed = 1; fn(imgA + off, from_le(a, 8), from_le(b, 8), imm, &o); varmed = 0; } else { fault = 1; g = 0; }
 		__asm__ __volatile__("" ::: "memory");
-		memcpy(m1, box.m, 16);
-		int g = 1;
-		for (int i = 0; i < GUARD; i++) if (box.pre[i] != 0xA5 || box.post[i] != 0x5A) g = 0;
+		memcpy(m1, imgA, 16);
+		for (int i = 1; i <= GUARD; i++) if (imgA[-i] != 0xA5) g = 0;
+		/* placement B: same vector, same expectation */
+		memset(imgB + 16, 0x5A, GUARD); memcpy(imgB, m0, 16);
+		__asm__ __volatile__("" ::: "memory");
+		if (!sigsetjmp(vjb, 1)) { varmed = 1; fn(imgB + off, from_le(a, 8), from_le(b, 8), imm, &o2); varmed = 0; } else { fault = 2; g = 0; }
+		__asm__ __volatile__("" ::: "memory");
+		memcpy(m2, imgB, 16);
+		for (int i = 0; i < GUARD; i++) if (imgB[16 + i] != 0x5A) g = 0;
+		if (memcmp(m1, m2, 16) || o.r != o2.r || o.rsz != o2.rsz || o.rsg != o2.rsg) g = 0;	/* result depends on the placement */
 		le64(o.r, rb);
 		fprintf(lf, "{\"i\":%ld,\"op\":\"%s\",\"w\":%d,\"off\":%d,\"ts\":%d,\"ow\":%d,\"os\":%d,\"imm\":%d,", idx, opname[op], w, off, ts, ow, os, imm);
 		jbytes(lf, "a", a, 8); fputc(',', lf); jbytes(lf, "b", b, 8); fputc(',', lf);
@@ -219,6 +247,7 @@ static int run_vectors(const char *vpath, const char *lpath)
 			if (bad++ < 20) {
 				printf("MISMATCH impl=%s vector=%ld op=%s w=%d off=%d ts=%d ow=%d os=%d imm=%d a=%016lx b=%016lx old=%0*lx", IMPL, idx, opname[op], w, off, ts, ow, os, imm,
 				       (unsigned long) from_le(a, 8), (unsigned long) from_le(b, 8), 2 * w, (unsigned long) from_le(m0 + off, w));
+				if (fault) printf(" FAULT: the operation accessed memory outside its %d-byte operand (inaccessible page %s the image)", w, fault == 1 ? "after" : "before");
 				printf(" got: new=%0*lx ret=%016lx rsz=%d rsg=%d guard=%d", 2 * w, (unsigned long) from_le(m1 + off, w), (unsigned long) o.r, o.rsz, o.rsg, g);
 				printf(" expected: new=%0*lx ret=%016lx%s rsz=%d rsg=%d neighbours_%s\n", 2 * w, (unsigned long) from_le(em1 + off, w), (unsigned long) from_le(er, 8), hasret ? "" : "(void)", hasret ? w : 0, hasret ? ts : 0,
 				       (!memcmp(m1, em1, off) && !memcmp(m1 + off + w, em1 + off + w, 16 - off - w)) ? "intact" : "CLOBBERED");
